@@ -17,72 +17,197 @@ theorem verifies_iff (k : κ) (a : α) (m : μ) (s : Sig κ α μ) :
   cases s
   simp [verifies, and_assoc]
 
+/-! ### Lists -/
+
+omit [DecidableEq κ] [DecidableEq α] [DecidableEq μ] in
+theorem nth_mid {β : Type} (done rest : List β) (op : β) :
+    (done ++ op :: rest)[done.length]? = some op := by simp
+
+omit [DecidableEq κ] [DecidableEq α] [DecidableEq μ] in
+theorem take_mid {β : Type} (done rest : List β) : (done ++ rest).take done.length = done := by simp
+
+omit [DecidableEq κ] [DecidableEq α] [DecidableEq μ] in
+theorem keyAfter_snoc (k : κ) (ops : List (Op κ α μ)) (op : Op κ α μ) :
+    keyAfter k (ops ++ [op]) = (match op with | .setup _ c => c | _ => keyAfter k ops) := by
+  unfold keyAfter
+  rw [List.foldl_append]
+  cases op <;> rfl
+
+omit [DecidableEq κ] [DecidableEq α] [DecidableEq μ] in
+/-- The entity key after some operations is the initial one or one that a set-up operation installed. -/
+theorem keyAfter_mem (k : κ) (ops : List (Op κ α μ)) :
+    keyAfter k ops = k ∨ keyAfter k ops ∈ ops.filterMap setupContent := by
+  induction ops generalizing k with
+  | nil => left; rfl
+  | cons op l ih =>
+    have hstep : keyAfter k (op :: l) = keyAfter (match op with | .setup _ c => c | _ => k) l := by
+      unfold keyAfter; rfl
+    rw [hstep]
+    cases op with
+    | setup p c =>
+      rcases ih c with h | h
+      · right; simp [setupContent, h]
+      · right; simp only [List.filterMap_cons, setupContent, List.mem_cons]; right; exact h
+    | sign a m =>
+      rcases ih k with h | h
+      · left; exact h
+      · right; simpa [setupContent] using h
+    | verify a m sg c sk =>
+      rcases ih k with h | h
+      · left; exact h
+      · right; simpa [setupContent] using h
+
 /-! ### Thread-local invariant -/
 
-/-- A thread between `get_signer` and `sign` holds a signer object with ITS OWN key and the digest
-    of the algorithm it asked for. -/
-def Good (st : TState κ α μ) : Prop :=
-  ∀ s alg msg, st.pend = .signing s alg msg → s = ⟨alg, st.key⟩
+/-- The operation a thread is in the middle of. -/
+def curOp : Pending κ α μ → Option (Op κ α μ)
+  | .idle => none
+  | .signing _ alg msg => some (.sign alg msg)
+  | .verifying _ alg msg sig cert sigkey => some (.verify alg msg sig cert sigkey)
 
-theorem stepThread_inv (tb : Tables α) (st st' : TState κ α μ) (b : Branch) (ev : Option (Event κ α μ))
-    (hg : Good st) (h : stepThread tb st = some (st', b, ev)) :
-    st'.key = st.key ∧ Good st' ∧
-      ∀ alg msg s, ev = some (.signed alg msg s) → s = ⟨st.key, alg, msg⟩ := by
+/-- `st` is a state of thread `th`: the program splits into the operations done (`st.pc` of them), the
+    current one and the rest; the entity key is the one the done operations lead to; a thread between
+    `get_signer` and `sign` holds a signer object with ITS OWN key and the digest it asked for; one
+    between `get_signer` and `verify` holds a signer with the digest it asked for. -/
+def Good (th : Thread κ α μ) (st : TState κ α μ) : Prop :=
+  ∃ done : List (Op κ α μ), done.length = st.pc ∧
+    th.prog = done ++ ((curOp st.pend).toList ++ st.rest) ∧
+    st.key = keyAfter th.key done ∧
+    (∀ s alg msg, st.pend = .signing s alg msg → s = ⟨alg, st.key⟩) ∧
+    (∀ s alg msg sig cert sk, st.pend = .verifying s alg msg sig cert sk → s.digest = alg)
+
+/-- What a reported result says about the operation it belongs to. -/
+def EventOk (tb : Tables α) (th : Thread κ α μ) (i : Nat) : Event κ α μ → Prop
+  | .signed alg msg s =>
+      th.prog[i]? = some (.sign alg msg) ∧ s = ⟨keyAfter th.key (th.prog.take i), alg, msg⟩
+  | .verified ok =>
+      ∃ alg msg sig cert sk, th.prog[i]? = some (.verify alg msg sig cert sk) ∧
+        ∀ c, cert = some c → (ok = true → verifies c alg msg sig = true) ∧
+          (tb.hasSigner alg = true → ok = verifies c alg msg sig)
+  | .refused => ∃ alg msg, th.prog[i]? = some (.sign alg msg)
+  | .setupDone => ∃ p c, th.prog[i]? = some (.setup p c)
+  | .crashed => False
+
+theorem stepThread_inv (tb : Tables α) (th : Thread κ α μ) (st st' : TState κ α μ) (b : Branch)
+    (ev : Option (Event κ α μ)) (hg : Good th st) (h : stepThread tb st = some (st', b, ev)) :
+    Good th st' ∧ ∀ e, ev = some e → EventOk tb th st.pc e := by
+  obtain ⟨done, hlen, hprog, hkey, hsig, hver⟩ := hg
   unfold stepThread at h
   split at h
   next s alg msg hp =>
+    -- signer.sign
     cases h
-    have hs := hg s alg msg hp
+    have hs := hsig s alg msg hp
     subst hs
-    refine ⟨rfl, ?_, ?_⟩
+    rw [hp] at hprog
+    simp only [curOp, Option.toList_some, List.singleton_append] at hprog
+    refine ⟨⟨done ++ [.sign alg msg], by simp [hlen], ?_, ?_, ?_, ?_⟩, ?_⟩
+    · simpa [curOp] using hprog
+    · simp only; rw [keyAfter_snoc]; exact hkey
     · intro s' a' m' hp'; cases hp'
-    · intro a' m' s' he; cases he; rfl
-  next s alg msg sig key hp =>
+    · intro s' a' m' sg c sk hp'; cases hp'
+    · intro e he
+      cases he
+      refine ⟨?_, ?_⟩
+      · rw [hprog, ← hlen]; exact nth_mid _ _ _
+      · rw [hprog, ← hlen, take_mid, ← hkey]
+  next s alg msg sig cert sigkey hp =>
+    -- signer.verify
     cases h
-    refine ⟨rfl, ?_, ?_⟩
+    have hd := hver s alg msg sig cert sigkey hp
+    rw [hp] at hprog
+    simp only [curOp, Option.toList_some, List.singleton_append] at hprog
+    refine ⟨⟨done ++ [.verify alg msg sig cert sigkey], by simp [hlen], ?_, ?_, ?_, ?_⟩, ?_⟩
+    · simpa [curOp] using hprog
+    · simp only; rw [keyAfter_snoc]; exact hkey
     · intro s' a' m' hp'; cases hp'
-    · intro a' m' s' he; cases he
+    · intro s' a' m' sg c sk hp'; cases hp'
+    · intro e he
+      cases he
+      refine ⟨alg, msg, sig, cert, sigkey, ?_, ?_⟩
+      · rw [hprog, ← hlen]; exact nth_mid _ _ _
+      · intro c hc
+        subst hc
+        have hk : verifies ((explicitKey (some c) sigkey).getD s.key) s.digest msg sig
+            = verifies c alg msg sig := by simp [explicitKey, hd]
+        rw [hk]
+        exact ⟨fun h => h, fun _ => rfl⟩
   next hp =>
+    rw [hp] at hprog
+    simp only [curOp, Option.toList_none, List.nil_append] at hprog
     split at h
     · cases h
     next alg msg r hr =>
+      rw [hr] at hprog
+      have hnth : th.prog[st.pc]? = some (.sign alg msg) := by rw [hprog, ← hlen]; exact nth_mid _ _ _
       split at h
       · cases h
-        refine ⟨rfl, ?_, ?_⟩
-        · intro s' a' m' hp'; rw [hp] at hp'; cases hp'
-        · intro a' m' s' he; cases he
+        refine ⟨⟨done ++ [.sign alg msg], by simp [hlen], ?_, ?_, ?_, ?_⟩, ?_⟩
+        · simpa [hp, curOp] using hprog
+        · simp only; rw [keyAfter_snoc]; exact hkey
+        · intro s' a' m' hp'; simp only at hp'; rw [hp] at hp'; cases hp'
+        · intro s' a' m' sg c sk hp'; simp only at hp'; rw [hp] at hp'; cases hp'
+        · intro e he; cases he; exact ⟨alg, msg, hnth⟩
       · split at h
         · cases h
-          refine ⟨rfl, ?_, ?_⟩
-          · intro s' a' m' hp'; rw [hp] at hp'; cases hp'
-          · intro a' m' s' he; cases he
+          refine ⟨⟨done ++ [.sign alg msg], by simp [hlen], ?_, ?_, ?_, ?_⟩, ?_⟩
+          · simpa [hp, curOp] using hprog
+          · simp only; rw [keyAfter_snoc]; exact hkey
+          · intro s' a' m' hp'; simp only at hp'; rw [hp] at hp'; cases hp'
+          · intro s' a' m' sg c sk hp'; simp only at hp'; rw [hp] at hp'; cases hp'
+          · intro e he; cases he; exact ⟨alg, msg, hnth⟩
         · cases h
-          refine ⟨rfl, ?_, ?_⟩
+          refine ⟨⟨done, hlen, ?_, hkey, ?_, ?_⟩, ?_⟩
+          · simpa [curOp] using hprog
           · intro s' a' m' hp'; cases hp'; rfl
-          · intro a' m' s' he; cases he
+          · intro s' a' m' sg c sk hp'; cases hp'
+          · intro e he; cases he
     next alg msg sig cert sigkey r hr =>
+      rw [hr] at hprog
+      have hnth : th.prog[st.pc]? = some (.verify alg msg sig cert sigkey) := by
+        rw [hprog, ← hlen]; exact nth_mid _ _ _
       split at h
+      next hno =>
+        cases h
+        refine ⟨⟨done ++ [.verify alg msg sig cert sigkey], by simp [hlen], ?_, ?_, ?_, ?_⟩, ?_⟩
+        · simpa [hp, curOp] using hprog
+        · simp only; rw [keyAfter_snoc]; exact hkey
+        · intro s' a' m' hp'; simp only at hp'; rw [hp] at hp'; cases hp'
+        · intro s' a' m' sg c sk hp'; simp only at hp'; rw [hp] at hp'; cases hp'
+        · intro e he
+          cases he
+          refine ⟨alg, msg, sig, cert, sigkey, hnth, ?_⟩
+          intro c _
+          refine ⟨(fun h => by cases h), fun hs => ?_⟩
+          simp [hs] at hno
       · cases h
-        refine ⟨rfl, ?_, ?_⟩
-        · intro s' a' m' hp'; rw [hp] at hp'; cases hp'
-        · intro a' m' s' he; cases he
-      · cases h
-        refine ⟨rfl, ?_, ?_⟩
+        refine ⟨⟨done, hlen, ?_, hkey, ?_, ?_⟩, ?_⟩
+        · simpa [curOp] using hprog
         · intro s' a' m' hp'; cases hp'
-        · intro a' m' s' he; cases he
+        · intro s' a' m' sg c sk hp'; cases hp'; rfl
+        · intro e he; cases he
+    next p content r hr =>
+      rw [hr] at hprog
+      have hnth : th.prog[st.pc]? = some (.setup p content) := by rw [hprog, ← hlen]; exact nth_mid _ _ _
+      cases h
+      refine ⟨⟨done ++ [.setup p content], by simp [hlen], ?_, ?_, ?_, ?_⟩, ?_⟩
+      · simpa [hp, curOp] using hprog
+      · simp only; rw [keyAfter_snoc]
+      · intro s' a' m' hp'; simp only at hp'; rw [hp] at hp'; cases hp'
+      · intro s' a' m' sg c sk hp'; simp only at hp'; rw [hp] at hp'; cases hp'
+      · intro e he; cases he; exact ⟨p, content, hnth⟩
 
 /-! ### Global invariant -/
 
-/-- Every thread state belongs to the thread of the same number, is `Good`, and every signature
-    reported so far was made with the reporting thread's own key over its own octets. -/
-structure Inv (threads : List (Thread κ α μ)) (g : State κ α μ) : Prop where
-  locals : ∀ (i : Nat) (st : TState κ α μ), g.ts[i]? = some st → Good st ∧ ∃ th : Thread κ α μ, threads[i]? = some th ∧ th.key = st.key
-  sigs : ∀ (t : Nat) (alg : α) (msg : μ) (s : Sig κ α μ), (t, Event.signed alg msg s) ∈ g.out →
-    ∃ th : Thread κ α μ, threads[t]? = some th ∧ s = ⟨th.key, alg, msg⟩
-  events : ∀ (t : Nat) (e : Event κ α μ), (t, e) ∈ g.out → ∃ th : Thread κ α μ, threads[t]? = some th
+/-- Every thread state is a `Good` state of the thread of the same number, and every result reported
+    so far satisfies `EventOk` for the thread and operation it is attributed to. -/
+structure Inv (tb : Tables α) (threads : List (Thread κ α μ)) (g : State κ α μ) : Prop where
+  locals : ∀ (i : Nat) (st : TState κ α μ), g.ts[i]? = some st →
+    ∃ th : Thread κ α μ, threads[i]? = some th ∧ Good th st
+  events : ∀ (t i : Nat) (e : Event κ α μ), (t, i, e) ∈ g.out →
+    ∃ th : Thread κ α μ, threads[t]? = some th ∧ EventOk tb th i e
 
-omit [DecidableEq κ] [DecidableEq α] [DecidableEq μ] in
-theorem inv_init (threads : List (Thread κ α μ)) : Inv threads (init threads) := by
+theorem inv_init (tb : Tables α) (threads : List (Thread κ α μ)) : Inv tb threads (init threads) := by
   constructor
   · intro i st h
     simp only [init, List.getElem?_map] at h
@@ -91,14 +216,15 @@ theorem inv_init (threads : List (Thread κ α μ)) : Inv threads (init threads)
     | some th =>
       simp [hth] at h
       subst h
-      exact ⟨(by intro s a m hp; cases hp), th, rfl, rfl⟩
-  · intro t alg msg s h
-    simp [init] at h
-  · intro t e h
+      refine ⟨th, rfl, [], rfl, ?_, rfl, ?_, ?_⟩
+      · simp [curOp]
+      · intro s a m hp; cases hp
+      · intro s a m sg c sk hp; cases hp
+  · intro t i e h
     simp [init] at h
 
 theorem inv_step (tb : Tables α) (threads : List (Thread κ α μ)) (g : State κ α μ) (t : Nat)
-    (hinv : Inv threads g) : Inv threads (step tb g t) := by
+    (hinv : Inv tb threads g) : Inv tb threads (step tb g t) := by
   unfold step
   split
   · exact hinv
@@ -106,8 +232,8 @@ theorem inv_step (tb : Tables α) (threads : List (Thread κ α μ)) (g : State 
     split
     · exact hinv
     next st' b ev hstep =>
-      obtain ⟨hgood, th, hth, hkey⟩ := hinv.locals t st hst
-      obtain ⟨hk', hg', hev⟩ := stepThread_inv tb st st' b ev hgood hstep
+      obtain ⟨th, hth, hgood⟩ := hinv.locals t st hst
+      obtain ⟨hg', hev⟩ := stepThread_inv tb th st st' b ev hgood hstep
       constructor
       · intro i sti hi
         simp only at hi
@@ -117,52 +243,34 @@ theorem inv_step (tb : Tables α) (threads : List (Thread κ α μ)) (g : State 
           subst heq
           split at hi
           · cases hi
-            exact ⟨hg', th, hth, by rw [hk']; exact hkey⟩
+            exact ⟨th, hth, hg'⟩
           · cases hi
         next => exact hinv.locals i sti hi
-      · intro t' alg msg s hmem
+      · intro t' i e hmem
         simp only at hmem
         rcases List.mem_append.mp hmem with hold | hnew
-        · exact hinv.sigs t' alg msg s hold
-        · cases ev with
-          | none => simp at hnew
-          | some e =>
-            simp only [List.mem_singleton] at hnew
-            cases hnew
-            have := hev alg msg s rfl
-            exact ⟨th, hth, by rw [this, hkey]⟩
-      · intro t' e hmem
-        simp only at hmem
-        rcases List.mem_append.mp hmem with hold | hnew
-        · exact hinv.events t' e hold
+        · exact hinv.events t' i e hold
         · cases ev with
           | none => simp at hnew
           | some e' =>
             simp only [List.mem_singleton] at hnew
             cases hnew
-            exact ⟨th, hth⟩
+            exact ⟨th, hth, hev e rfl⟩
 
 theorem inv_foldl (tb : Tables α) (threads : List (Thread κ α μ)) (sched : List Nat) (g : State κ α μ)
-    (hinv : Inv threads g) : Inv threads (sched.foldl (step tb) g) := by
+    (hinv : Inv tb threads g) : Inv tb threads (sched.foldl (step tb) g) := by
   induction sched generalizing g with
   | nil => exact hinv
   | cons t rest ih => exact ih (step tb g t) (inv_step tb threads g t hinv)
 
 theorem inv_run (tb : Tables α) (threads : List (Thread κ α μ)) (sched : List Nat) :
-    Inv threads (run tb threads sched) :=
-  inv_foldl tb threads sched _ (inv_init threads)
+    Inv tb threads (run tb threads sched) :=
+  inv_foldl tb threads sched _ (inv_init tb threads)
 
 theorem verifiers_exact (univ : List κ) (k : κ) (alg : α) (msg : μ) :
     univ.filter (fun k' => verifies k' alg msg (⟨k, alg, msg⟩ : Sig κ α μ)) = univ.filter (fun k' => decide (k' = k)) := by
   apply List.filter_congr
   intro k' _
   simp [verifies, eq_comm]
-
-
-theorem event_thread_exists (tb : Tables α) (threads : List (Thread κ α μ)) (sched : List Nat)
-    (t : Nat) (e : Event κ α μ) (h : (t, e) ∈ (run tb threads sched).out) :
-    ∃ own, (threads.map (·.key))[t]? = some own := by
-  obtain ⟨th, hth⟩ := (inv_run tb threads sched).events t e h
-  exact ⟨th.key, by simp [hth]⟩
 
 end C20
